@@ -703,7 +703,9 @@ def parse_deriv_reply(text):
 
 # --------------------------------------------------------------------------- malformations
 
-UNKNOWN_SYMBOLS = ["Xx", "Qq", "A", "J", "Zz", "Q", "Hx", "Dd", "Tt", "Ee", "M", "L", "Z", "Nn", "Oo", "X"]
+# `L` is not in the list: it is a documented unit (litre), so "<count>L<part>" is a quantity of the
+# mixture grammar, not an unambiguous malformation of a compound (the parser tries the mixture forms first)
+UNKNOWN_SYMBOLS = ["Xx", "Qq", "A", "J", "Zz", "Q", "Hx", "Dd", "Tt", "Ee", "M", "Lx", "Z", "Nn", "Oo", "X"]
 BAD_COUNTS = ["0", "00", "01", "1e3", "-2", "1,5", "1x", "007", "2e-3", "1/2", "0x1"]
 BAD_ISO = ["[0]", "[01]", "[1.5]", "[]", "[x]", "[-1]", "[1 2]", "[[1]", "[1]]", "[+2]", "[1e1]", "[ ]"]
 BAD_ION = ["{2}", "{+2}", "{}", "{0+}", "{++}", "{2 +}", "{+-}", "{2+2}", "{x}", "{ }", "{-1}", "{1.+}", "{01+}"]
